@@ -18,9 +18,10 @@ No well-formedness of `body` is needed for this: it follows from byte conservati
 Operations outside that theorem, and why:
   * listOffsets (`readOffset`): returns the kafka error from inside the partition loop without a drain; aligned only
     because a list-offsets response to a one-partition request has one topic with one partition, the error code being
-    followed by the two int64 of the same entry.  Tied by correspondence on well-formed frames only;
-    `listOffsets_two_partitions_counterexample` shows why no unconditional theorem exists, and
-    `listOffsets_wf_example` runs the model on a concrete well-formed error frame.
+    followed by the two int64 of the same entry: `listOffsets_aligned_wf` (∀ topic name, partition, error code,
+    timestamp, offset, trailing bytes — for the regenerated operation by `listOffsets_gen_shape`);
+    `listOffsets_two_partitions_counterexample` shows why the shape hypothesis is needed, `listOffsets_wf_example`
+    is a concrete instance.
   * fetch (`ReadBatchWith`/`Batch`): `fetch_aligned_or_closed`, for every message-set reader that conserves bytes, with
     the hypothesis that a response at the high watermark carries an empty set (`fetch_at_watermark_counterexample`).
   * apiVersions: no `expectZeroSize`, no close on error in the Go code; tied by correspondence only (well-formed frames).
@@ -263,6 +264,66 @@ theorem listOffsets_two_partitions_counterexample :
     ((specOf "listOffsets").map fun o => (opRead o 1 [116] ⟨listOffsets2, listOffsets2.length⟩).1) = some (.kafka 6) ∧
     ((specOf "listOffsets").map fun o => (opRead o 1 [116] ⟨listOffsets2, listOffsets2.length⟩).2.sz) = some 22 := by
   decide
+
+theorem readInt_app (a r : Bytes) (n sz : Nat) (h : a.length = n) (hn : n ≤ sz) :
+    readInt n ⟨a ++ r, sz⟩ = (.ok (beInt a), ⟨r, sz - n⟩) := by
+  unfold readInt peekRead
+  have h1 : ¬ n > sz := by omega
+  have h2 : ¬ (a ++ r).length < n := by simp; omega
+  simp only [h1, h2, ↓reduceIte]
+  subst h
+  simp
+
+theorem discardN_app (a r : Bytes) (n : Int) (sz : Nat) (h : (a.length : Int) = n) (hn : a.length ≤ sz) :
+    discardN n ⟨a ++ r, sz⟩ = (.ok (), ⟨r, sz - a.length⟩) := by
+  unfold discardN
+  subst h
+  have h1 : ((a.length : Int) ≤ (sz : Int)) := by omega
+  have h2 : ¬ ((a.length : Int) < 0) := by omega
+  simp [h1, h2]
+
+/-- list-offsets v1, the shape a broker answers a one-partition request with: any topic name, partition, error code,
+timestamp, offset; any bytes after the frame.  Result: ok / that kafka error, frame exactly consumed. -/
+theorem listOffsets_aligned_wf (o : OpSpec) (topic c1 lenb name c2 part err ts off rest : Bytes)
+    (hparse : o.parse 1 = readOffsetClosure [.int 4, .err, .int 8, .int 8])
+    (hdrain : o.drain = false) (hzero : o.expectZero = true) (hpost : o.post.eval topic = fun _ => none)
+    (h1 : c1.length = 4) (h1v : beInt c1 = 1) (hl : lenb.length = 2) (hn : beInt lenb = name.length)
+    (h2 : c2.length = 4) (h2v : beInt c2 = 1)
+    (hp : part.length = 4) (he : err.length = 2) (ht : ts.length = 8) (ho : off.length = 8) :
+    opRead o 1 topic ⟨c1 ++ (lenb ++ (name ++ (c2 ++ (part ++ (err ++ (ts ++ (off ++ rest))))))),
+                      4 + (2 + (name.length + (4 + (4 + (2 + (8 + 8))))))⟩ =
+      (if beInt err = 0 then .ok else .kafka (beInt err), ⟨rest, 0⟩) := by
+  unfold opRead
+  rw [hparse]
+  simp only [readOffsetClosure, runSteps, runStep, List.cons_append, List.nil_append]
+  rw [readInt_app c1 _ 4 _ h1 (by omega)]
+  simp only [h1v, Int.toNat_one, iter, lift, discardLen, readLenWith]
+  rw [readInt_app lenb _ 2 _ hl (by omega)]
+  simp only [hn]
+  have hle : ¬ ((name.length : Int) > ((4 + (2 + (name.length + (4 + (4 + (2 + (8 + 8)))))) - 4 - 2 : Nat) : Int)) := by omega
+  have hnn : ¬ ((name.length : Int) < 0) := by omega
+  simp only [hle, hnn, ↓reduceIte]
+  rw [discardN_app name _ _ _ rfl (by omega)]
+  simp only []
+  rw [readInt_app c2 _ 4 _ h2 (by omega)]
+  simp only [h2v, Int.toNat_one, iter]
+  rw [readInt_app part _ 4 _ hp (by omega)]
+  simp only []
+  rw [readInt_app err _ 2 _ he (by omega)]
+  simp only []
+  rw [readInt_app ts _ 8 _ ht (by omega)]
+  simp only []
+  rw [readInt_app off _ 8 _ ho (by omega)]
+  simp only []
+  by_cases hz : beInt err = 0
+  · simp [hz, hzero, hpost]
+  · simp [hz, hdrain]
+
+/-- the regenerated list-offsets operation has exactly the shape `listOffsets_aligned_wf` is about -/
+theorem listOffsets_gen_shape : ∃ o, specOf "listOffsets" = some o ∧
+    o.parse 1 = readOffsetClosure [.int 4, .err, .int 8, .int 8] ∧ o.drain = false ∧ o.expectZero = true ∧
+    (∀ t, o.post.eval t = fun _ => none) :=
+  ⟨_, rfl, rfl, by decide, by decide, fun _ => rfl⟩
 
 /-- a well-formed one-partition list-offsets error frame (error 3 = UnknownTopicOrPartition): aligned -/
 def listOffsets1 : Bytes :=
